@@ -49,6 +49,16 @@ theorem validation_before_mutation (cfg : Cfg) (now : Int) (c : Coll) (f u up : 
   rw [h1, h2, h]
   exact ⟨rfl, rfl⟩
 
+/-- an update document whose operator names are refused is refused by `_apply_update` before any
+    document is looked for: the collection is the SAME (no expiry pass has run, the filter was
+    not evaluated), whatever the filter and the flags -/
+theorem precheck_before_lookup (cfg : Cfg) (now : Int) (c : Coll) (fs dfs : Fields) (f u : Val)
+    (upsert multi : Bool) (e : Err) (hf : patchDT f = .doc fs) (hu : patchDT u = .doc dfs)
+    (h : updatePrecheck cfg dfs = .error e) :
+    applyUpdateColl cfg now c f u upsert multi = (c, .error e) := by
+  unfold applyUpdateColl
+  simp only [hf, hu, h]
+
 theorem step_insert_many (cfg : Cfg) (now : Int) (c : Coll) (ds : List Val) (ordered : Val) :
     stepColl cfg now c (.arr [.str "insert_many", .arr ds, ordered]) =
       if ds.isEmpty then (c, .err .typeErr)
